@@ -587,7 +587,7 @@ func deepNestMutation(r *vh.Rng, root *interface{}, guard bool) string {
 	if ob == nil || m == nil {
 		return "none"
 	}
-	d := r.Between(30, 120)
+	d := r.Between(30, 80)
 	switch r.Pick(4) {
 	case 0:
 		var v interface{} = constDecl("leaf")
@@ -620,15 +620,19 @@ func deepNestMutation(r *vh.Rng, root *interface{}, guard bool) string {
 			if !ok || len(top) == 0 {
 				continue
 			}
-			if _, old := top[0].(map[string]interface{})["by_header_footer"]; old {
+			t0, isObj := top[0].(map[string]interface{})
+			if !isObj {
 				continue
 			}
-			if _, old := top[0].(map[string]interface{})["by_rows"]; old {
+			if _, old := t0["by_header_footer"]; old {
+				continue
+			}
+			if _, old := t0["by_rows"]; old {
 				continue
 			}
 			v := top
 			if k[2] != "segment_group" {
-				d = r.Between(2, 6) // guard groups_shallow
+				d = r.Between(2, 5) // guard groups_small (guardViolation re-checks the cost)
 				if !guard && r.Chance(0.5) {
 					d = r.Between(14, 30)
 				}
